@@ -70,19 +70,24 @@ use std::sync::{Arc, Mutex};
 pub enum Call {
     F { e: usize, prev: Option<usize>, state: Vec<f64>, ok: bool },
     A { e1: usize, e2: usize, after: Vec<f64> },
-    T { e: usize, before: Vec<f64>, after: Vec<f64> },
+    T { e: usize, before: Vec<f64>, after: Vec<f64>, slept: bool },
     E { src: usize, dst: usize },
 }
 
 #[derive(Default)]
 pub struct Recorder {
     pub calls: Mutex<Vec<Call>>,
+    /// (n, ms): the n-th traversal call (1-based, counted from the last take()) sleeps ms milliseconds - used to
+    /// run a search's time budget out at a known point
+    pub sleep: Mutex<(usize, u64)>,
+    pub ntrav: Mutex<usize>,
 }
 impl Recorder {
     fn push(&self, c: Call) {
         self.calls.lock().unwrap().push(c);
     }
     pub fn take(&self) -> Vec<Call> {
+        *self.ntrav.lock().unwrap() = 0;
         std::mem::take(&mut *self.calls.lock().unwrap())
     }
 }
@@ -109,7 +114,18 @@ impl TraversalModel for RecT {
     ) -> Result<(), TraversalModelError> {
         let before = raw(state);
         let r = self.inner.traverse_edge(trajectory, state, state_model);
-        self.rec.push(Call::T { e: trajectory.1.edge_id.0, before, after: raw(state) });
+        let slept = {
+            let mut n = self.rec.ntrav.lock().unwrap();
+            *n += 1;
+            let (at, ms) = *self.rec.sleep.lock().unwrap();
+            if at > 0 && *n == at {
+                std::thread::sleep(std::time::Duration::from_millis(ms));
+                true
+            } else {
+                false
+            }
+        };
+        self.rec.push(Call::T { e: trajectory.1.edge_id.0, before, after: raw(state), slept });
         r
     }
     fn estimate_traversal(
@@ -251,6 +267,10 @@ pub fn scratch_dir() -> std::path::PathBuf {
     std::fs::create_dir_all(&d).unwrap();
     d
 }
+
+/// time budget of the scenarios with a runtime limit that is not exhausted from the start; a traversal call that sleeps
+/// more than twice as long certainly uses it up
+pub const RT_BUDGET_MS: u64 = 40;
 
 pub struct Built {
     pub si: SearchInstance,
@@ -474,6 +494,15 @@ pub fn build_instance(scn: &Value) -> Result<Built, String> {
     if szl >= 0 {
         terms.push(TerminationModel::SolutionSizeLimit { limit: szl as usize });
     }
+    // runtime limit: a zero budget (exhausted from the start) or RT_BUDGET_MS, checked every rtf-th iteration
+    let rtf = scn["rtf"].as_u64().unwrap_or(0);
+    if rtf > 0 {
+        let ms = if scn["rtx"].as_bool().unwrap_or(false) { 0 } else { RT_BUDGET_MS };
+        terms.push(TerminationModel::QueryRuntimeLimit { limit: std::time::Duration::from_millis(ms), frequency: rtf });
+        if let Some(at) = scn["sleep_at"].as_u64().filter(|a| *a > 0) {
+            *rec.sleep.lock().unwrap() = (at as usize, 2 * RT_BUDGET_MS + 10);
+        }
+    }
     let termination_model = match terms.len() {
         0 => TerminationModel::IterationsLimit { limit: u64::MAX - 1 },
         1 => terms.pop().unwrap(),
@@ -576,7 +605,7 @@ pub fn relax_events(lg: &Lg, calls: &[Call]) -> Vec<Value> {
     let mut cur: Option<(usize, Value)> = None;
     fn fresh(e: usize) -> Value {
         json!({"ev": "Relax", "e": e + 1, "last": -1, "valid": true, "fcalled": false, "cs": [], "est": -1,
-               "as": [], "st": [], "tb": [], "te": 0, "ae": []})
+               "as": [], "st": [], "tb": [], "te": 0, "ae": [], "slept": false})
     }
     for c in calls {
         let edge = match c {
@@ -620,10 +649,13 @@ pub fn relax_events(lg: &Lg, calls: &[Call]) -> Vec<Value> {
                 ev["as"] = lg.st(after);
                 ev["ae"] = json!([e1 + 1, e2 + 1]);
             }
-            (Call::T { e, before, after }, Some((_, ev))) => {
+            (Call::T { e, before, after, slept }, Some((_, ev))) => {
                 ev["tb"] = lg.st(before);
                 ev["te"] = json!(e + 1);
                 ev["st"] = lg.st(after);
+                if *slept {
+                    ev["slept"] = json!(true);
+                }
             }
             (Call::E { src, .. }, Some((_, ev))) => {
                 ev["est"] = json!(src + 1);
@@ -686,6 +718,8 @@ fn setup_event(scn: &Value, b: &Built, lg: &Lg) -> Value {
     ev["gc"] = json!(gc);
     ev["init_obs"] = lg.st(&raw(&init));
     ev["units"] = norm_units(scn);
+    ev["rtf"] = json!(scn["rtf"].as_u64().unwrap_or(0));
+    ev["rtx"] = json!(scn["rtx"].as_bool().unwrap_or(false));
     ev
 }
 
@@ -736,7 +770,7 @@ pub fn run_scenario(out: &mut Out, scn: &Value) {
     }
     let (outcome, msg) = outcome_of(&result);
     let mut end = json!({"ev": "End", "outcome": outcome, "msg_iter": msg.contains("iteration limit"),
-                         "msg_size": msg.contains("solution size limit"), "msg": msg,
+                         "msg_size": msg.contains("solution size limit"), "msg_rt": msg.contains("runtime limit"), "msg": msg,
                          "iters": -1, "tree": [], "route": [], "nroutes": 0, "ntrees": 0});
     if let Ok(r) = &result {
         end["iters"] = json!(r.iterations);
@@ -987,6 +1021,16 @@ pub fn gen_scenario(r: &mut StdRng, o: &GenOpts) -> Value {
         }
         if r.gen_bool(0.5) {
             scn["szl"] = json!(r.gen_range(0..=(nv as i64)));
+        }
+        // runtime limit with any check frequency: a zero budget, or a budget that a model call uses up at a known point
+        // (a few of them only: each one sleeps for a tenth of a second), or one that is never used up
+        if r.gen_bool(0.3) {
+            scn["rtf"] = json!(r.gen_range(1..=4));
+            match r.gen_range(0..10) {
+                0..=3 => scn["rtx"] = json!(true),
+                4 | 5 if o.focus == "c10" && scn["orient"] == "vertex" => scn["sleep_at"] = json!(r.gen_range(1..=6)),
+                _ => {}
+            }
         }
     }
     scn
